@@ -109,6 +109,7 @@ unsigned char gh_owner[XV_K], gh_rank[XV_K], gh_pred[XV_K], pre_rank[XV_K], pre_
 uintptr_t pre_val[XV_K]; unsigned char pre_owner[XV_K]; struct hp_slot* pre_hint; struct cb* pre_cb;
 struct guard gA, gB, a0, b0;
 #define SLOT(i) (&the_cb.pointers[i])
+#define CL(x) ((x) < XV_K ? (x) : 0u)      /* clamp an index that is known (assumed/checked) to be < K: keeps the bounds check quiet without a division */
 static unsigned slot_index(const struct hp_slot* s) { for (unsigned i = 0; i < XV_K; i++) if (s == SLOT(i)) return i; return XV_K; }
 /* guard invariant GI: a non-null pointer is published in the guard's slot */
 static _Bool gi_ok(const struct guard* g) {
@@ -201,26 +202,26 @@ static void build_state(_Bool with_a, _Bool with_b) {
       if (i == in_a_idx) gh_owner[i] = OW_A; else if (i == in_b_idx) gh_owner[i] = OW_B; else gh_owner[i] = nondet_bool() ? OW_FREE : OW_OTHER;
       gh_rank[i] = nondet_uchar(); gh_pred[i] = nondet_uchar();
     }
-    XV_ASSUME(head <= XV_K); if (head < XV_K) XV_ASSUME(gh_owner[head % XV_K] == OW_FREE && gh_rank[head % XV_K] == 0);
-    local_thread_data.hint = head < XV_K ? SLOT(head % XV_K) : 0;
+    XV_ASSUME(head <= XV_K); if (head < XV_K) XV_ASSUME(gh_owner[CL(head)] == OW_FREE && gh_rank[CL(head)] == 0);
+    local_thread_data.hint = head < XV_K ? SLOT(CL(head)) : 0;
     for (unsigned i = 0; i < XV_K; i++) {
       if (gh_owner[i] == OW_FREE) {
         unsigned nx = nondet_uint(), p = gh_pred[i]; in_nfree++;
         XV_ASSUME(head < XV_K && gh_rank[i] < XV_K && nx <= XV_K);
-        if (nx < XV_K) XV_ASSUME(gh_owner[nx % XV_K] == OW_FREE && gh_rank[nx % XV_K] == gh_rank[i] + 1 && gh_pred[nx % XV_K] == i);
-        if (i != head) XV_ASSUME(p < XV_K && gh_owner[p % XV_K] == OW_FREE && gh_rank[p % XV_K] + 1 == gh_rank[i]);
-        SLOT(i)->value = (nx < XV_K ? (uintptr_t)SLOT(nx % XV_K) : 0) | SV_BIT;
+        if (nx < XV_K) XV_ASSUME(gh_owner[CL(nx)] == OW_FREE && gh_rank[CL(nx)] == gh_rank[i] + 1 && gh_pred[CL(nx)] == i);
+        if (i != head) XV_ASSUME(p < XV_K && gh_owner[CL(p)] == OW_FREE && gh_rank[CL(p)] + 1 == gh_rank[i]);
+        SLOT(i)->value = (nx < XV_K ? (uintptr_t)SLOT(CL(nx)) : 0) | SV_BIT;
       } else {
         uintptr_t o = nondet_uptr(); XV_ASSUME((o >> 48) == 0 && (gh_owner[i] != OW_OTHER || o != 0)); SLOT(i)->value = o; gh_rank[i] = 15;
       }
     }
-    for (unsigned i = 0; i < XV_K; i++) if (gh_owner[i] == OW_FREE && i != head) XV_ASSUME(SV_get(SLOT(gh_pred[i] % XV_K)->value) == (uintptr_t)SLOT(i));
+    for (unsigned i = 0; i < XV_K; i++) if (gh_owner[i] == OW_FREE && i != head) XV_ASSUME(SV_get(SLOT(CL(gh_pred[i]))->value) == (uintptr_t)SLOT(i));
   }
   pre_head = head;
   for (unsigned i = 0; i < XV_K; i++) ranks |= (uint64_t)(gh_rank[i] & 15) << (4 * i);
   in_ranks = ranks;
-  gA.ptr = in_a_ptr; gA.hp = in_a_idx < XV_K ? SLOT(in_a_idx % XV_K) : 0;
-  gB.ptr = in_b_ptr; gB.hp = in_b_idx < XV_K ? SLOT(in_b_idx % XV_K) : 0;
+  gA.ptr = in_a_ptr; gA.hp = in_a_idx < XV_K ? SLOT(CL(in_a_idx)) : 0;
+  gB.ptr = in_b_ptr; gB.hp = in_b_idx < XV_K ? SLOT(CL(in_b_idx)) : 0;
   if (!with_a) gA.ptr = 0;
   if (!with_b) gB.ptr = 0;
   XV_ASSUME(gi_ok(&gA) && gi_ok(&gB));
@@ -330,7 +331,7 @@ void h_alloc(void) {
       XV_OBL("hp.alloc.k_available", !xv_threw && r != 0 && slot_index(r) < XV_K);
       if (!in_uninit) {
         XV_OBL("hp.alloc.k_available", r == pre_hint && slots_unchanged_except(0) && gh_acquire_entry_calls == 0);
-        XV_OBL("hp.alloc.k_available", local_thread_data.hint == (struct hp_slot*)SV_get(pre_val[slot_index(r) % XV_K]));
+        XV_OBL("hp.alloc.k_available", local_thread_data.hint == (struct hp_slot*)SV_get(pre_val[CL(slot_index(r))]));
         XV_CANARY("alloc.from_chain");
       } else {
         XV_OBL("hp.alloc.k_available", r == SLOT(0) && gh_acquire_entry_calls == 1 && local_thread_data.control_block == &the_cb);
@@ -350,7 +351,7 @@ void h_alloc(void) {
       XV_OBL("hp.release.returns_slot", gA.hp == 0 && local_thread_data.hint == a0.hp && a0.hp->value == ((uintptr_t)pre_hint | SV_BIT));
       XV_OBL("hp.release.returns_slot", slots_unchanged_except(a0.hp) && !xv_threw && local_thread_data.control_block == pre_cb);
       gA.ptr = 0;
-      XV_OBL("hp.release.returns_slot", derive_owner(&gA, &gB) && inv_ok(&gA, &gB, 0) && owners_unchanged_except(a0.hp) && gh_owner[slot_index(a0.hp) % XV_K] == OW_FREE);
+      XV_OBL("hp.release.returns_slot", derive_owner(&gA, &gB) && inv_ok(&gA, &gB, 0) && owners_unchanged_except(a0.hp) && gh_owner[CL(slot_index(a0.hp))] == OW_FREE);
       XV_CANARY("release.held");
     } else {
       XV_OBL("hp.release.returns_slot", gA.hp == 0 && slots_unchanged() && !xv_threw);
@@ -409,7 +410,7 @@ void h_gops(void) {
         if (in_op == OP_CTOR) XV_CANARY("gops.ctor_protect"); }
       else { XV_OBL("hp.ctor.protects", gA.hp == 0 && slots_unchanged()); if (in_op == OP_CTOR) XV_CANARY("gops.ctor_null"); }
       if (in_op == OP_COPY_CTOR) {
-        XV_OBL("hp.copy.shares", gA.ptr == gB.ptr && (MP_get(v) == 0 || (gA.hp != gB.hp && gA.hp->value == gB.hp->value && gB.hp->value == pre_val[slot_index(gB.hp) % XV_K])));
+        XV_OBL("hp.copy.shares", gA.ptr == gB.ptr && (MP_get(v) == 0 || (gA.hp != gB.hp && gA.hp->value == gB.hp->value && gB.hp->value == pre_val[CL(slot_index(gB.hp))])));
         if (MP_get(v) != 0) XV_CANARY("gops.copy_ctor_protect"); else XV_CANARY("gops.copy_ctor_empty");
       }
       break; }
@@ -418,7 +419,7 @@ void h_gops(void) {
       if (b0.hp) XV_CANARY("gops.move_ctor_held"); else XV_CANARY("gops.move_ctor_empty");
       break;
     case OP_COPY_ASSIGN:
-      XV_OBL("hp.copy.shares", ret == &gA && gA.ptr == b0.ptr && same_guard(&gB, &b0) && (b0.hp == 0 || b0.hp->value == pre_val[slot_index(b0.hp) % XV_K]));
+      XV_OBL("hp.copy.shares", ret == &gA && gA.ptr == b0.ptr && same_guard(&gB, &b0) && (b0.hp == 0 || b0.hp->value == pre_val[CL(slot_index(b0.hp))]));
       XV_OBL("hp.copy.shares", MP_get(b0.ptr) == 0 || (gA.hp != 0 && gA.hp != gB.hp && gA.hp->value == gB.hp->value));
       if (a0.hp == 0 && gA.hp != 0) XV_OBL("hp.alloc.k_available", gA.hp == head);
       if (MP_get(b0.ptr) != 0 && a0.hp != 0) XV_CANARY("gops.copy_assign_reuse");
